@@ -164,6 +164,22 @@ def docx(variant: str) -> tuple[bytes, dict]:
                 parts[n_] = _png(20 + j)
         elif variant != "imgdangling":
             parts["word/media/image1.png"] = _png(1 if variant == "imgA" else 2)
+    stored = None
+    if variant.startswith("omml"):
+        # formulas (OMML): 'ommlgood-X' = g(x) = (a+b)/2 written with the bracket pair X; 'ommlfail-X' = a malformed radical whose operand is the lone
+        # opening bracket X, followed by nesting deeper than any recursion limit: the conversion of this formula cannot finish
+        M = 'xmlns:m="http://schemas.openxmlformats.org/officeDocument/2006/math"'
+        o, c = {"paren": "()", "bracket": "[]", "brace": "{}"}[variant.split("-")[1]]
+
+        def mr(t):
+            return f"<m:r><m:t>{_x(t)}</m:t></m:r>"
+        if variant.startswith("ommlgood"):
+            f_ = f"{mr('g' + o + 'x' + c + '=')}<m:f><m:num>{mr(o + 'a+b' + c)}</m:num><m:den>{mr('2')}</m:den></m:f>"
+        else:
+            n_ = 2500
+            f_ = (f'<m:rad><m:radPr><m:degHide m:val="1"/></m:radPr><m:deg/><m:e>{mr(o)}</m:e></m:rad>' + "<m:d><m:e>" * n_ + mr("x") + "</m:e></m:d>" * n_ + mr(c))
+            stored = "word/document.xml"        # (deep nesting deflates so well that the container bomb guard would refuse the package first)
+        body.append(f"<w:p><m:oMath {M}>{f_}</m:oMath></w:p>")
     if variant.startswith("sty"):
         styles = {"Heading1": "heading 1", "IsoStyle": "Iso Style " + variant}
         body.append(_wp(f"{tag} styled", "IsoStyle"))
@@ -188,7 +204,7 @@ def docx(variant: str) -> tuple[bytes, dict]:
     if meta:
         members.append(("docProps/core.xml", (_CORE % ("title " + tag, "creator " + tag)).encode()))
         members.append(("docProps/app.xml", (_APP % tag).encode()))
-    return _zip(members), {"has": has, "not": absent}
+    return _zip(members, stored_first=stored), {"has": has if not variant.startswith("ommlfail") else [], "not": absent}
 
 
 # ------------------------------------------------------------------------------------------------------------ XLSX
@@ -788,7 +804,7 @@ def archive(variant: str) -> tuple[bytes, dict]:
 FAMILIES = {
     "rtf-cp": ("rtf", lambda v: rtf_codepage(*_rtf_variant(v)), ".rtf",
                [f"{'none' if cp is None else cp}" for cp in RTF_CODEPAGES] + ["1252:upper", "1251:upper", "1250:mixed", "1251:mixed", "none:mixed", "1252:hf", "1251:hf", "1250:hf", "none:hf"]),
-    "docx": ("docx", docx, ".docx", ["hfA", "hfB", "hfdangling", "hfnone", "hfother", "nometa", "notesA", "notesB", "notesdangling", "imgA", "imgB", "imgdangling", "imgcase", "styA", "styB"]),
+    "docx": ("docx", docx, ".docx", ["hfA", "hfB", "hfdangling", "hfnone", "hfother", "nometa", "notesA", "notesB", "notesdangling", "imgA", "imgB", "imgdangling", "imgcase", "styA", "styB"] + ['ommlgood-paren', 'ommlgood-bracket', 'ommlgood-brace', 'ommlfail-paren', 'ommlfail-bracket', 'ommlfail-brace']),
     "xlsx": ("xlsx", xlsx, ".xlsx", ["sstA", "sstB", "sstinline", "nometa", "vals-double", "vals-bool", "vals-int", "vals-text", "vals-mixed"]),
     "pptx": ("pptx", pptx, ".pptx", ["imgA", "imgB", "imgdangling", "imgcase", "cmA", "cmB", "cmdangling", "nometa", "plain"]),
     "odt": ("odt", lambda v: odf("odt", v), ".odt", ODF_META_FORMS),
@@ -857,6 +873,8 @@ def feature(src, kind: str = "") -> str:
              "unb-epub": "epub-unclosed-markup", "unb-epub-last": "epub-unclosed-markup", "unb-html": "html-unclosed-markup", "unb-mhtml": "mhtml-unclosed-markup"}
     if fam in fixed:
         return fixed[fam]
+    if var.startswith("omml"):
+        return fam + "-formula" + ("-unfinished" if "fail" in var else "")
     if var.startswith("vals"):
         return fam + "-typed-values"
     if var in ("meta", "nometa", "emptymeta", "nostyles", "bare", "plain"):
@@ -880,6 +898,8 @@ def groups() -> list[dict]:
         g("docx:note-id/package", "docx", ["notesA", "notesB", "notesdangling"]),
         g("docx:image-rid/package", "docx", ["imgA", "imgB", "imgdangling", "imgcase"]),
         g("docx:style-id/package", "docx", ["styA", "styB", "nometa"]),
+        {"name": "ooxml:formula-converter/unfinished-conversion",
+         "members": [("docx", ["iso", "docx", v]) for v in ['ommlgood-paren', 'ommlgood-bracket', 'ommlgood-brace', 'ommlfail-paren', 'ommlfail-bracket', 'ommlfail-brace']] + [("pptx", ["fx", "modern_ms/pptx_formula_image.pptx"])]},
         g("xlsx:shared-string-index/workbook", "xlsx", ["sstA", "sstB", "sstinline", "nometa"]),
         g("xlsx:equal-values-of-different-types/cell-type", "xlsx", ["vals-double", "vals-bool", "vals-int", "vals-text", "vals-mixed"]),
         g("pptx:image-rid/package", "pptx", ["imgA", "imgB", "imgdangling", "imgcase"]),
